@@ -156,6 +156,8 @@ def _render_file(R, path, repo, canary_fn, canary_kind, depth):
                         cur = sp.enter
                     elif d2 == 'tail':
                         cur = sp.tail
+                    elif d2 == 'exit':
+                        cur = sp.exit
                     elif d2.startswith('loop'):
                         cur = sp.loops.setdefault(int(d2.split()[1]), [])
                     elif d2.startswith('before') or d2.startswith('after'):
